@@ -304,9 +304,17 @@ impl World {
 
         let mut ids: HashMap<String, u64> = HashMap::new();
         let mut names: HashMap<u64, String> = HashMap::new();
+        // realistic address lengths: in every other deployment bob, david and the liquidator carry 44-character bech32-shaped
+        // addresses (the fixture names are 3–10 bytes; nothing that is keyed by an address may depend on its length)
+        let long = cfg.seed.wrapping_add(cfg.h) % 2 == 1;
         for (id, n) in ACCOUNTS {
-            ids.insert(n.to_string(), *id);
-            names.insert(*id, n.to_string());
+            let name = if long && matches!(*id, 102 | 104 | 110) {
+                format!("wasm1{}{}", n, &"qpzry9x8gf2tvdw0s3jn54khce6mua7l2tvdw0s3jn54kh"[..39 - n.len()])
+            } else {
+                n.to_string()
+            };
+            ids.insert(name.clone(), *id);
+            names.insert(*id, name);
         }
         let mut reg = |id: u64, a: &Addr| {
             ids.insert(a.to_string(), id);
